@@ -193,13 +193,17 @@ def build_harness(prop, cfg, log, race=False):
     ov = os.path.join(BUILD, "overlay_%s.json" % cxx)
     json.dump({"Replace": rep}, open(ov, "w"))
     binp = os.path.join(BUILD, "svh-" + cxx + ("-race" if race else ""))
-    # go.sum of the harness module = the repo's
+    # per-property module file: `replace sarama => REPO` (REPO is /repo unless VERIF_REPO points to a scratch copy);
+    # its go.sum is the repo's
+    modf = os.path.join(BUILD, "gomod_%s.mod" % cxx)
+    mod = open(os.path.join(HARNESS, "go.mod")).read().replace("=> /repo", "=> " + REPO)
+    open(modf, "w").write(mod)
     try:
-        shutil.copyfile(os.path.join(REPO, "go.sum"), os.path.join(HARNESS, "go.sum"))
+        shutil.copyfile(os.path.join(REPO, "go.sum"), modf[:-4] + ".sum")
     except Exception:
         pass
     env = dict(GOENV)
-    cmd = ["go", "build", "-tags", "verif", "-overlay", ov, "-o", binp]
+    cmd = ["go", "build", "-modfile", modf, "-tags", "verif", "-overlay", ov, "-o", binp]
     if race:
         cmd.insert(2, "-race")
         env["CGO_ENABLED"] = "1"
